@@ -12,6 +12,12 @@ pub enum Guard<T> {
 thread_local! {
   static IN_GUARD: std::cell::Cell<u32> = std::cell::Cell::new(0);
 }
+static LAST_PANIC: std::sync::Mutex<String> = std::sync::Mutex::new(String::new());
+
+/// Message and location of the last panic that happened OUTSIDE a guard (a harness panic).
+pub fn last_harness_panic() -> String {
+  LAST_PANIC.lock().map(|s| s.clone()).unwrap_or_default()
+}
 
 /// Panics inside `guard` (code under test) are data and stay silent; a panic of the
 /// harness itself is printed so that it shows up as a tool error.
@@ -19,6 +25,9 @@ pub fn install_quiet_panic_hook() {
   std::panic::set_hook(Box::new(|info| {
     if IN_GUARD.with(|g| g.get()) == 0 {
       eprintln!("harness panic: {info}");
+      if let Ok(mut s) = LAST_PANIC.lock() {
+        *s = format!("{info}");
+      }
     }
   }));
 }
